@@ -1,7 +1,9 @@
 (* Small-step model of the subscriber path of daemon/src/table_manager.rs:
-   subscribe (register-then-snapshot), insert_route, remove_route,
-   soft_reset_in, unregister_peer (drop arm) + peer_down, peer_up, the import
-   policy swap, over two shards, as threads whose atomic steps are exactly the
+   subscribe (register-then-snapshot) and unsubscribe for any number of
+   subscriptions, insert_route, remove_route, soft_reset_in, unregister_peer
+   (drop arm and graceful-restart stale arm) + peer_down, drop_families,
+   drop_stale_families, update_nexthop_validity, peer_up, the import policy
+   swap, over two shards, as threads whose atomic steps are exactly the
    stretches of code between two scheduling points (verif_sched::point: before
    every shard-lock acquisition; the harness adds one before every operation).
    One step = one shard-lock critical section (the subscriber list is loaded
@@ -12,9 +14,10 @@
    (peer, shard, index, path id); the import policy is "reject these peers".
    [variant] selects the behaviour before ([Legacy]) and after ([Fixed]) the fix
    commits of findings C18-1 (an insert refused by the prefix limit had been
-   announced and was not taken back) and C18-2 (soft_reset_in loaded the
+   announced and was not taken back), C18-2 (soft_reset_in loaded the
    subscriber list once, before the shard loop, instead of inside each critical
-   section). *)
+   section) and C18-3 (the session / stale purges removed paths without any
+   Adj-RIB-In event). *)
 From Coq Require Import List NArith Bool.
 From RB Require Import Base.Val.
 Import ListNotations.
@@ -36,18 +39,32 @@ Inductive ev :=
 | EvEnd.                               (* EndOfSnapshot *)
 
 Inductive op :=
-| Subscribe
+| Subscribe (j : nat)                  (* subscribe(true) into subscription slot j *)
+| Unsubscribe (j : nat)
 | Ins (k : key) (tok : N)
 | Rem (k : key)
 | Up (p : N)
 | Down (p : N)                         (* unregister_peer(addr, all families, []) ; peer_down *)
+| GrDown (p : N)                       (* unregister_peer(addr, [], all families) ; peer_down: paths kept, stale *)
+| DropStale (p : N)                    (* drop_stale_families *)
+| DropFam (p : N)                      (* drop_families *)
+| MarkLlgr (p : N)                     (* mark_llgr_stale: the peer's NO_LLGR paths are deleted *)
+| DropLlgr (p : N)                     (* drop_llgr_stale_families *)
 | SoftReset (p : N)
-| SetPol (n : N).
+| SetPol (n : N)
+| Nhv (a : N).                         (* update_nexthop_validity: walks the shards, no Adj-RIB-In effect *)
 
 (* atomic steps *)
+(* which paths of a peer a purge selects: the stale ones (drop_stale), all (disconnected),
+   the ones carrying the NO_LLGR community (drop_no_llgr, called by mark_llgr_stale) *)
+Inductive pmode := PStale | PAll | PNoLlgr | PLlgr.
+(* the attribute blocks of the harness: tokens 4.. carry NO_LLGR *)
+Definition nollgr_tok (tok : N) : bool := 4 <=? tok.
+
 Inductive mstep :=
-| MSubReg                              (* subscribers.rcu(push) *)
-| MWalk                                (* lock next shard, send its snapshot; after the last shard: EndOfSnapshot *)
+| MSubReg (j : nat)                    (* subscribers.rcu(push) *)
+| MWalk (j : nat)                      (* lock next shard, send its snapshot; after the last shard: EndOfSnapshot *)
+| MUnsub (j : nat)                     (* subscribers.rcu(filter) *)
 | MInsPrep (k : key) (tok : N)         (* import_policy.load_full() ... *)
 | MInsLocked (k : key) (tok : N)       (* lock; subscribers.load(); notify; insert *)
 | MRemPrep (k : key)
@@ -56,19 +73,32 @@ Inductive mstep :=
 | MUnregPrep (p : N)
 | MUnregShard (p : N) (s : N)          (* lock shard s; disconnected(addr, family) *)
 | MPeerDown (p : N)                    (* subscribers.load(); send PeerDown *)
+| MStaleShard (p : N) (s : N)          (* lock shard s; mark_stale(addr, family) *)
+| MPeerDownGr (p : N)                  (* PeerDown; the next session gets a new Source *)
+| MPurgePrep (p : N)
+| MPurgeShard (all : pmode) (p : N) (s : N)   (* lock shard s; drop_stale / disconnected / drop_no_llgr *)
 | MResetPrep (p : N)                   (* import_policy / subscribers loads *)
 | MResetShard (p : N) (s : N)
-| MSetPol (n : N).
+| MSetPol (n : N)
+| MNhvPrep (a : N)
+| MNhvShard (a : N) (s : N).
 
 Definition expand (o : op) : list mstep :=
   match o with
-  | Subscribe => [MSubReg; MWalk; MWalk]
+  | Subscribe j => [MSubReg j; MWalk j; MWalk j]
+  | Unsubscribe j => [MUnsub j]
   | Ins k tok => [MInsPrep k tok; MInsLocked k tok]
   | Rem k => [MRemPrep k; MRemLocked k]
   | Up p => [MUp p]
   | Down p => [MUnregPrep p; MUnregShard p 0; MUnregShard p 1; MPeerDown p]
+  | GrDown p => [MUnregPrep p; MStaleShard p 0; MStaleShard p 1; MPeerDownGr p]
+  | DropStale p => [MPurgePrep p; MPurgeShard PStale p 0; MPurgeShard PStale p 1]
+  | DropFam p => [MPurgePrep p; MPurgeShard PAll p 0; MPurgeShard PAll p 1]
+  | MarkLlgr p => [MPurgePrep p; MPurgeShard PNoLlgr p 0; MPurgeShard PNoLlgr p 1]
+  | DropLlgr p => [MPurgePrep p; MPurgeShard PLlgr p 0; MPurgeShard PLlgr p 1]
   | SoftReset p => [MResetPrep p; MResetShard p 0; MResetShard p 1]
   | SetPol n => [MSetPol n]
+  | Nhv a => [MNhvPrep a; MNhvShard a 0; MNhvShard a 1]
   end.
 
 Record cfg := {
@@ -82,28 +112,31 @@ Record thread := {
   t_cur : list mstep;                  (* rest of the operation in progress *)
   t_ops : list op;                     (* operations still to be started *)
   t_pol : N;                           (* import policy loaded by the Prep step *)
-  t_subs : bool                        (* subscriber list loaded by MResetPrep *)
+  t_subs : nat -> bool                 (* subscriber list loaded by a Prep step *)
 }.
 
 Record glob := {
   g_keys : list key;                   (* keys ever inserted, no duplicates *)
   g_rib : key -> option (N * bool);    (* attribute token, filtered *)
-  g_subs : bool;                       (* our subscriber is in the list *)
-  g_walk : N;                          (* shards snapshotted so far *)
+  g_ssn : key -> N;                    (* which Source (session) of its peer the path came from *)
+  g_stale : list (N * N);              (* (peer, session): Sources marked stale *)
+  g_llgr : list (N * N);               (* (peer, session): Sources marked LLGR-stale *)
+  g_sess : N -> N;                     (* current session of a peer *)
+  g_ph : nat -> N;                     (* subscription slot: 0 unused, 1 in the subscriber list, 2 unsubscribed *)
+  g_walk : nat -> N;                   (* shards snapshotted so far by subscription j *)
   g_pol : N;
   g_ctr : N -> N;                      (* per-session prefix counters *)
-  g_evs : list ev                      (* what the subscriber's channel received, oldest first *)
+  g_evs : nat -> list ev               (* what subscription j's channel received, oldest first *)
 }.
 
 Record sys := { s_g : glob; s_thr : nat -> thread }.
 
-Definition thread0 : thread := {| t_cur := []; t_ops := []; t_pol := 0; t_subs := false |}.
 Definition glob0 : glob :=
-  {| g_keys := []; g_rib := fun _ => None; g_subs := false; g_walk := 0; g_pol := 0;
-     g_ctr := fun _ => 0; g_evs := [] |}.
+  {| g_keys := []; g_rib := fun _ => None; g_ssn := fun _ => 0; g_stale := []; g_llgr := []; g_sess := fun _ => 0;
+     g_ph := fun _ => 0; g_walk := fun _ => 0; g_pol := 0; g_ctr := fun _ => 0; g_evs := fun _ => [] |}.
 Definition init (progs : list (list op)) : sys :=
   {| s_g := glob0;
-     s_thr := fun i => {| t_cur := []; t_ops := nth i progs []; t_pol := 0; t_subs := false |} |}.
+     s_thr := fun i => {| t_cur := []; t_ops := nth i progs []; t_pol := 0; t_subs := fun _ => false |} |}.
 
 Section WithCfg.
 Variable c : cfg.
@@ -124,18 +157,21 @@ Definition add_key (k : key) (ks : list key) : list key :=
   if existsb (key_eqb k) ks then ks else k :: ks.
 Definition set_ctr (p n : N) (f : N -> N) : N -> N := fun q => if q =? p then n else f q.
 
-(* the notification helpers: nothing is sent to an empty subscriber list *)
-Definition send (subs : bool) (l : list ev) : list ev := if subs then l else [].
+Definition live (g : glob) (j : nat) : bool := g_ph g j =? 1.
+
+(* the notification helpers: an event goes to every subscription of the list *)
+Definition bcast (subs : nat -> bool) (evs : nat -> list ev) (l : list ev) : nat -> list ev :=
+  fun j => evs j ++ (if subs j then l else []).
 
 Definition post_val (tok : N) (filtered : bool) : option N := if filtered then None else Some tok.
 
 Definition peer_has_prefix (g : glob) (k : key) : bool :=
   existsb (fun q => same_prefix q k && match g_rib g q with Some _ => true | None => false end) (g_keys g).
 
-Definition set_evs_rib (g : glob) (evs : list ev) (keys : list key) (rib : key -> option (N * bool))
-           (ctr : N -> N) : glob :=
-  {| g_keys := keys; g_rib := rib; g_subs := g_subs g; g_walk := g_walk g; g_pol := g_pol g;
-     g_ctr := ctr; g_evs := g_evs g ++ evs |}.
+Definition is_llgr (g : glob) (k : key) : bool :=
+  existsb (fun x => (fst x =? k_peer k) && (snd x =? g_ssn g k)) (g_llgr g).
+Definition is_stale (g : glob) (k : key) : bool :=
+  existsb (fun x => (fst x =? k_peer k) && (snd x =? g_ssn g k)) (g_stale g).
 
 (* the value a kind of Adj-RIB-In holds for a key: [b = false] pre-policy
    (iter_reach), [b = true] post-policy (iter_reach_post: filtered paths left out) *)
@@ -146,98 +182,150 @@ Definition ribv (b : bool) (r : key -> option (N * bool)) (k : key) : option N :
   end.
 Definition evk (b : bool) (k : key) (x : option N) : ev := if b then EvPost k x else EvPre k x.
 
+Definition with_rib (g : glob) (subs : nat -> bool) (evs : list ev) (keys : list key)
+           (rib : key -> option (N * bool)) (ssn : key -> N) (ctr : N -> N) : glob :=
+  {| g_keys := keys; g_rib := rib; g_ssn := ssn; g_stale := g_stale g; g_llgr := g_llgr g; g_sess := g_sess g;
+     g_ph := g_ph g; g_walk := g_walk g; g_pol := g_pol g; g_ctr := ctr;
+     g_evs := bcast subs (g_evs g) evs |}.
+
 (* insert_route's critical section *)
 Definition ins_locked (g : glob) (pol : N) (k : key) (tok : N) : glob :=
   let filtered := rejects pol (k_peer k) in
-  let evs := send (g_subs g) [evk false k (Some tok); evk true k (post_val tok filtered)] in
+  let evs := [evk false k (Some tok); evk true k (post_val tok filtered)] in
   let is_new := negb (peer_has_prefix g k) in
+  let ssn' := fun q => if key_eqb q k then g_sess g (k_peer k) else g_ssn g q in
   match limit_of (k_peer k) with
   | Some m =>
     if is_new && (m <=? g_ctr g (k_peer k)) then
       (* PrefixLimitExceeded: already notified, nothing inserted; since the fix of
          finding C18-1 the announcement is taken back *)
-      set_evs_rib g (evs ++ match v with
-                           | Legacy => []
-                           | Fixed => send (g_subs g) [evk false k None; evk true k None]
-                           end)
-                  (g_keys g) (g_rib g) (g_ctr g)
+      with_rib g (live g) (evs ++ match v with
+                                  | Legacy => []
+                                  | Fixed => [evk false k None; evk true k None]
+                                  end)
+               (g_keys g) (g_rib g) (g_ssn g) (g_ctr g)
     else
-      set_evs_rib g evs (add_key k (g_keys g)) (upd_rib k (Some (tok, filtered)) (g_rib g))
-                  (if is_new then set_ctr (k_peer k) (g_ctr g (k_peer k) + 1) (g_ctr g) else g_ctr g)
+      with_rib g (live g) evs (add_key k (g_keys g)) (upd_rib k (Some (tok, filtered)) (g_rib g)) ssn'
+               (if is_new then set_ctr (k_peer k) (g_ctr g (k_peer k) + 1) (g_ctr g) else g_ctr g)
   | None =>
-    set_evs_rib g evs (add_key k (g_keys g)) (upd_rib k (Some (tok, filtered)) (g_rib g)) (g_ctr g)
+    with_rib g (live g) evs (add_key k (g_keys g)) (upd_rib k (Some (tok, filtered)) (g_rib g)) ssn' (g_ctr g)
   end.
 
 (* remove_route's critical section *)
+(* AtomicU64::fetch_sub(1) of Table::remove: wraps at zero (a session that came back after a
+   graceful restart has a fresh counter and may withdraw a path retained from the previous one) *)
+Definition ctr_dec (n : N) : N := if n =? 0 then 18446744073709551615 else n - 1.
 Definition rem_locked (g : glob) (k : key) : glob :=
-  let evs := send (g_subs g) [evk false k None; evk true k None] in
+  let evs := [evk false k None; evk true k None] in
   let rib' := upd_rib k None (g_rib g) in
-  let g' := set_evs_rib g evs (g_keys g) rib' (g_ctr g) in
+  let g' := with_rib g (live g) evs (g_keys g) rib' (g_ssn g) (g_ctr g) in
   match g_rib g k, limit_of (k_peer k) with
   | Some _, Some _ =>
     if peer_has_prefix g' k then g'
-    else set_evs_rib g evs (g_keys g) rib' (set_ctr (k_peer k) (g_ctr g (k_peer k) - 1) (g_ctr g))
+    else with_rib g (live g) evs (g_keys g) rib' (g_ssn g) (set_ctr (k_peer k) (ctr_dec (g_ctr g (k_peer k))) (g_ctr g))
   | _, _ => g'
   end.
 
 Definition in_shard (s : N) (k : key) : bool := shard_of k =? s.
+Definition nonnone {A} (o : option A) : bool := match o with Some _ => true | None => false end.
 
-(* TableShard::disconnected for one shard: paths vanish, no Adj-RIB-In event *)
-Definition unreg_shard (g : glob) (p s : N) : glob :=
-  set_evs_rib g [] (g_keys g)
-    (fun q => if (k_peer q =? p) && in_shard s q then None else g_rib g q) (g_ctr g).
+(* TableShard::disconnected / drop_stale for one shard: the selected paths vanish;
+   since the fix of finding C18-3 each is withdrawn from the subscribers *)
+Definition purge_sel (g : glob) (all : pmode) (p s : N) (q : key) : bool :=
+  (k_peer q =? p) && in_shard s q &&
+  match all with
+  | PAll => true
+  | PStale => is_stale g q
+  | PNoLlgr => match g_rib g q with Some (tok, _) => nollgr_tok tok | None => false end
+  | PLlgr => is_llgr g q
+  end.
+Definition set_llgr (g : glob) (l : list (N * N)) : glob :=
+  {| g_keys := g_keys g; g_rib := g_rib g; g_ssn := g_ssn g; g_stale := g_stale g; g_llgr := l; g_sess := g_sess g;
+     g_ph := g_ph g; g_walk := g_walk g; g_pol := g_pol g; g_ctr := g_ctr g; g_evs := g_evs g |}.
+Definition purge_shard (g : glob) (all : pmode) (p s : N) : glob :=
+  let ks := filter (fun q => purge_sel g all p s q && nonnone (g_rib g q)) (g_keys g) in
+  let evs := flat_map (fun q => [evk false q None; evk true q None]) ks in
+  let g1 := with_rib g (live g) (match v with Legacy => [] | Fixed => evs end) (g_keys g)
+              (fun q => if purge_sel g all p s q then None else g_rib g q) (g_ssn g) (g_ctr g) in
+  match all with
+  | PNoLlgr =>
+    (* mark_llgr_stale first marks the Sources of the peer's paths in this shard (restale_llgr) *)
+    set_llgr g1 (map (fun q => (p, g_ssn g q))
+                     (filter (fun q => (k_peer q =? p) && in_shard s q && nonnone (g_rib g q)) (g_keys g)) ++ g_llgr g)
+  | _ => g1
+  end.
 
-(* TableShard::soft_reset_in for one shard *)
-Definition reset_rib (r : key -> option (N * bool)) (f' : bool) (p s : N) : key -> option (N * bool) :=
-  fun q => if (k_peer q =? p) && in_shard s q
-           then match r q with Some (tok, _) => Some (tok, f') | None => None end
-           else r q.
-Definition reset_shard (g : glob) (subs : bool) (pol p s : N) : glob :=
-  let r' := reset_rib (g_rib g) (rejects pol p) p s in
-  let ks := filter (fun q => (k_peer q =? p) && in_shard s q) (g_keys g) in
+(* TableShard::mark_stale for one shard: the Sources of the peer's paths in this
+   shard are marked (the mark is shared by all their paths in every shard) *)
+Definition stale_shard (g : glob) (p s : N) : glob :=
+  let ks := filter (fun q => (k_peer q =? p) && in_shard s q && nonnone (g_rib g q)) (g_keys g) in
+  {| g_keys := g_keys g; g_rib := g_rib g; g_ssn := g_ssn g;
+     g_stale := map (fun q => (p, g_ssn g q)) ks ++ g_stale g; g_llgr := g_llgr g; g_sess := g_sess g;
+     g_ph := g_ph g; g_walk := g_walk g; g_pol := g_pol g; g_ctr := g_ctr g; g_evs := g_evs g |}.
+
+(* TableShard::soft_reset_in for one shard (stale paths are skipped) *)
+Definition reset_sel (g : glob) (p s : N) (q : key) : bool :=
+  (k_peer q =? p) && in_shard s q && negb (is_stale g q).
+Definition reset_rib (g : glob) (f' : bool) (p s : N) : key -> option (N * bool) :=
+  fun q => if reset_sel g p s q
+           then match g_rib g q with Some (tok, _) => Some (tok, f') | None => None end
+           else g_rib g q.
+Definition reset_shard (g : glob) (subs : nat -> bool) (pol p s : N) : glob :=
+  let r' := reset_rib g (rejects pol p) p s in
+  let ks := filter (reset_sel g p s) (g_keys g) in
   let evs := flat_map (fun q => match g_rib g q with
                                 | Some _ => [evk true q (ribv true r' q)]
                                 | None => []
                                 end) ks in
-  set_evs_rib g (send subs evs) (g_keys g) r' (g_ctr g).
+  with_rib g subs evs (g_keys g) r' (g_ssn g) (g_ctr g).
 
 (* one shard of subscribe's snapshot loop (sent on the subscription's own sender) *)
 Definition walk_evs (b : bool) (r : key -> option (N * bool)) (ks : list key) : list ev :=
   flat_map (fun q => match ribv b r q with Some tok => [evk b q (Some tok)] | None => [] end) ks.
-Definition walk_shard (g : glob) : glob :=
-  let s := g_walk g in
+Definition upd_nat {A} (j : nat) (x : A) (f : nat -> A) : nat -> A := fun i => if Nat.eqb i j then x else f i.
+Definition walk_shard (g : glob) (j : nat) : glob :=
+  let s := g_walk g j in
   let ks := filter (fun q => in_shard s q) (g_keys g) in
-  {| g_keys := g_keys g; g_rib := g_rib g; g_subs := g_subs g; g_walk := s + 1; g_pol := g_pol g;
-     g_ctr := g_ctr g;
-     g_evs := g_evs g ++ walk_evs false (g_rib g) ks ++ walk_evs true (g_rib g) ks ++
-              (if s + 1 =? 2 then [EvEnd] else []) |}.
+  {| g_keys := g_keys g; g_rib := g_rib g; g_ssn := g_ssn g; g_stale := g_stale g; g_llgr := g_llgr g; g_sess := g_sess g;
+     g_ph := g_ph g; g_walk := upd_nat j (s + 1) (g_walk g); g_pol := g_pol g; g_ctr := g_ctr g;
+     g_evs := upd_nat j (g_evs g j ++ walk_evs false (g_rib g) ks ++ walk_evs true (g_rib g) ks ++
+                         (if s + 1 =? 2 then [EvEnd] else [])) (g_evs g) |}.
 
 Definition with_evs (g : glob) (evs : list ev) : glob :=
-  set_evs_rib g evs (g_keys g) (g_rib g) (g_ctr g).
+  with_rib g (live g) evs (g_keys g) (g_rib g) (g_ssn g) (g_ctr g).
+Definition set_ph (g : glob) (j : nat) (x : N) : glob :=
+  {| g_keys := g_keys g; g_rib := g_rib g; g_ssn := g_ssn g; g_stale := g_stale g; g_llgr := g_llgr g; g_sess := g_sess g;
+     g_ph := upd_nat j x (g_ph g); g_walk := g_walk g; g_pol := g_pol g; g_ctr := g_ctr g; g_evs := g_evs g |}.
+Definition load_locals (g : glob) (t : thread) : thread :=
+  {| t_cur := t_cur t; t_ops := t_ops t; t_pol := g_pol g; t_subs := live g |}.
 
 (* effect of one atomic step executed by a thread with locals [t] *)
 Definition exec (g : glob) (t : thread) (m : mstep) : glob * thread :=
   match m with
-  | MSubReg =>
-    ({| g_keys := g_keys g; g_rib := g_rib g; g_subs := true; g_walk := g_walk g; g_pol := g_pol g;
-        g_ctr := g_ctr g; g_evs := g_evs g |}, t)
-  | MWalk => (walk_shard g, t)
-  | MInsPrep _ _ =>
-    (g, {| t_cur := t_cur t; t_ops := t_ops t; t_pol := g_pol g; t_subs := t_subs t |})
-  | MRemPrep _ | MUnregPrep _ => (g, t)
+  | MSubReg j => (if g_ph g j =? 0 then set_ph g j 1 else g, t)   (* a slot is used by one subscribe call *)
+  | MWalk j => (walk_shard g j, t)
+  | MUnsub j => (set_ph g j 2, t)
+  | MInsPrep _ _ => (g, load_locals g t)
+  | MRemPrep _ | MUnregPrep _ | MPurgePrep _ | MNhvPrep _ | MNhvShard _ _ => (g, t)
   | MInsLocked k tok => (ins_locked g (t_pol t) k tok, t)
   | MRemLocked k => (rem_locked g k, t)
-  | MUp p => (with_evs g (send (g_subs g) [EvUp p]), t)
-  | MUnregShard p s => (unreg_shard g p s, t)
+  | MUp p => (with_evs g [EvUp p], t)
+  | MUnregShard p s => (purge_shard g PAll p s, t)
   | MPeerDown p =>
-    (set_evs_rib g (send (g_subs g) [EvDown p]) (g_keys g) (g_rib g) (set_ctr p 0 (g_ctr g)), t)
-  | MResetPrep _ =>
-    (g, {| t_cur := t_cur t; t_ops := t_ops t; t_pol := g_pol g; t_subs := g_subs g |})
+    (with_rib g (live g) [EvDown p] (g_keys g) (g_rib g) (g_ssn g) (set_ctr p 0 (g_ctr g)), t)
+  | MStaleShard p s => (stale_shard g p s, t)
+  | MPeerDownGr p =>
+    let g1 := with_rib g (live g) [EvDown p] (g_keys g) (g_rib g) (g_ssn g) (set_ctr p 0 (g_ctr g)) in
+    ({| g_keys := g_keys g1; g_rib := g_rib g1; g_ssn := g_ssn g1; g_stale := g_stale g1;
+        g_llgr := g_llgr g1; g_sess := set_ctr p (g_sess g p + 1) (g_sess g); g_ph := g_ph g1; g_walk := g_walk g1;
+        g_pol := g_pol g1; g_ctr := g_ctr g1; g_evs := g_evs g1 |}, t)
+  | MPurgeShard all p s => (purge_shard g all p s, t)
+  | MResetPrep _ => (g, load_locals g t)
   | MResetShard p s =>
-    (reset_shard g (match v with Legacy => t_subs t | Fixed => g_subs g end) (t_pol t) p s, t)
+    (reset_shard g (match v with Legacy => t_subs t | Fixed => live g end) (t_pol t) p s, t)
   | MSetPol n =>
-    ({| g_keys := g_keys g; g_rib := g_rib g; g_subs := g_subs g; g_walk := g_walk g; g_pol := n;
-        g_ctr := g_ctr g; g_evs := g_evs g |}, t)
+    ({| g_keys := g_keys g; g_rib := g_rib g; g_ssn := g_ssn g; g_stale := g_stale g; g_llgr := g_llgr g; g_sess := g_sess g;
+        g_ph := g_ph g; g_walk := g_walk g; g_pol := n; g_ctr := g_ctr g; g_evs := g_evs g |}, t)
   end.
 
 (* next atomic step of a thread: continue the operation in progress, or start the next one *)
@@ -314,22 +402,27 @@ Definition v_ev (e : ev) : val :=
   | EvDown p => VL [VN 3; VN p]
   | EvEnd => VL [VN 4]
   end.
-Definition all_keys (g : glob) : list key :=
+Definition all_keys (g : glob) (evs : list ev) : list key :=
   fold_right (fun e acc => match e with
                            | EvPre k _ | EvPost k _ => add_key k acc
                            | _ => acc
-                           end) (g_keys g) (g_evs g).
+                           end) (g_keys g) evs.
 Definition v_map (ks : list key) (m : key -> option N) : val :=
   VL (flat_map (fun k => match m k with Some x => [VL [v_key k; VN x]] | None => [] end) ks).
 
+Definition v_sub (g : glob) (j : nat) : val :=
+  if g_ph g j =? 0 then VL [] else
+  let evs := g_evs g j in
+  let ks := all_keys g evs in
+  VL [VList v_ev evs; v_map ks (fold_pre evs); v_map ks (fold_post evs); VList v_ev (forward [] evs)].
+
 Definition observe (g : glob) : val :=
-  let ks := all_keys g in
-  VL [VList v_ev (g_evs g);
-      v_map ks (ribv false (g_rib g));
-      v_map ks (ribv true (g_rib g));
-      v_map ks (fold_pre (g_evs g));
-      v_map ks (fold_post (g_evs g));
-      VList v_ev (forward [] (g_evs g))].
+  VL [VL (flat_map (fun k => match ribv false (g_rib g) k with
+                             | Some x => [VL [v_key k; VN x; VB (is_stale g k)]]
+                             | None => []
+                             end) (g_keys g));
+      v_map (g_keys g) (ribv true (g_rib g));
+      VL (map (v_sub g) [0; 1; 2]%nat)].
 
 Definition run_case (v : variant) (c : cfg) (progs : list (list op)) (sched : list nat) : val :=
   observe (s_g (finish c v (run_sched c v (init progs) sched) (length progs))).
